@@ -95,6 +95,16 @@ func (raceSlice) Gen(r *rand.Rand, i int, _ string) ([]string, []string) {
 			break
 		}
 	}
+	// the race runner calls Close itself, while the readers are active: drop the muxer slice's own `close` op
+	{
+		kept := ops[:0:0]
+		for _, op := range ops {
+			if op != "close" {
+				kept = append(kept, op)
+			}
+		}
+		ops = kept
+	}
 	// RAM and Directory storage with equal weight
 	dir := r.Intn(2) == 0
 	var outTags []string
